@@ -172,6 +172,7 @@ package ro
 //@   ensures [late-add-runs-now-once|C03,C14] teardown != nil && atlock(done) ==> trace(callfn.teardown()) && len(atunlock(finalizers)) == len(atlock(finalizers))
 //@   ensures [open-add-appends|C03] teardown != nil && !atlock(done) ==> trace() && len(atunlock(finalizers)) == len(atlock(finalizers)) + 1 && atunlock(finalizers)[len(atlock(finalizers))] == teardown
 //@   ensures [only-own-panic] panics ==> panicked(teardown)
+//@   ensures [a-late-teardown-runs-unlocked|C03,C06,C07] notheldat(mu, callfn.teardown)
 
 //@ func (*subscriptionImpl).AddUnsubscribable
 //@   props C03 C14
